@@ -71,12 +71,12 @@ Unwind(locals) ==
 Goto(rec) == pc' = rec
 
 (* ------------------- SegmentedCache::put(k, v) ------------------------ *)
-StartPut(k) ==
+StartPutT(k, tk, tv) ==
   /\ pc.op = "idle" /\ nputs < MaxPuts
-  /\ LET tk == 2 * nputs + 1  tv == 2 * nputs + 2 IN
-     /\ tok' = [tok EXCEPT ![tk] = [k |-> k, st |-> "live"], ![tv] = [k |-> 0, st |-> "live"]]
-     /\ Goto([op |-> "put", step |-> "prot_lookup", k |-> k, tk |-> tk, tv |-> tv])
+  /\ tok' = [tok EXCEPT ![tk] = [k |-> k, st |-> "live"], ![tv] = [k |-> 0, st |-> "live"]]
+  /\ Goto([op |-> "put", step |-> "prot_lookup", k |-> k, tk |-> tk, tv |-> tv])
   /\ nputs' = nputs + 1 /\ UNCHANGED <<heap, index, bad, panics>>
+StartPut(k) == StartPutT(k, 2 * nputs + 1, 2 * nputs + 2)
 \* 1. protected.map.get_mut(&key): user Hash/Eq; hit -> update in place and move to front
 PutProtLookup ==
   /\ pc.op = "put" /\ pc.step = "prot_lookup"
@@ -196,12 +196,16 @@ Demote ==
                            /\ heap' = [h1 EXCEPT ![e.n].st = "freed"]
                            /\ tok' = ReturnToks(DropToks(tok, pc.locals \cup ({heap[e.n].key, heap[e.n].val} \ {0})), pc.ret)
                            /\ pc' = Idle /\ UNCHANGED <<nputs, panics>>
-     ELSE \/ CanPanic /\ Unwind(pc.locals \cup pc.ret)                     \* Hash of the demoted key panics: demoted node leaks
-          \/ /\ heap' = Attach(heap, "P", pc.demoted)
-             /\ index' = index \cup {[l |-> "P", k |-> KeyValOf(heap, pc.demoted), n |-> pc.demoted]}
-             /\ tok' = ReturnToks(DropToks(tok, pc.locals), pc.ret)
-             /\ bad' = bad \cup AttachBad(heap, "P", pc.demoted) \cup DropBad(tok, pc.locals)
-             /\ pc' = Idle /\ UNCHANGED <<nputs, panics>>
+     ELSE \* room in P: the node is LINKED first (no user code), then indexed (user Hash)
+          /\ heap' = Attach(heap, "P", pc.demoted) /\ bad' = bad \cup AttachBad(heap, "P", pc.demoted)
+          /\ Goto([pc EXCEPT !.step = "demote_insert"]) /\ UNCHANGED <<index, tok, nputs, panics>>
+DemoteInsert ==
+  /\ pc.step = "demote_insert"
+  /\ \/ CanPanic /\ Unwind(pc.locals \cup pc.ret)                          \* Hash of the demoted key panics: the node stays linked in P, unindexed
+     \/ /\ index' = index \cup {[l |-> "P", k |-> KeyValOf(heap, pc.demoted), n |-> pc.demoted]}
+        /\ tok' = ReturnToks(DropToks(tok, pc.locals), pc.ret)
+        /\ bad' = bad \cup DropBad(tok, pc.locals)
+        /\ pc' = Idle /\ UNCHANGED <<heap, nputs, panics>>
 
 (* ------------------------ SegmentedCache::get(k) ---------------------- *)
 Get(k) ==
@@ -246,7 +250,7 @@ Remove(k) ==
         /\ UNCHANGED <<nputs, pc, panics>>
 
 Micro == PutProtLookup \/ PutProbContains \/ PutProbTake \/ PutNewLookup \/ PutNewFull \/ PutNewAlloc \/ PutNewInsert
-         \/ Promote \/ PromoteInsert \/ Demote \/ GetProbPeek \/ GetProbTake
+         \/ Promote \/ PromoteInsert \/ Demote \/ DemoteInsert \/ GetProbPeek \/ GetProbTake
 Next == (\E k \in Keys : StartPut(k) \/ Get(k) \/ Remove(k)) \/ Micro
 Spec == Init /\ [][Next]_vars
 
